@@ -808,6 +808,11 @@ func (gen *Generator) GenerateAssignment(expr *SexpPair, assignPos int) error {
 		if err != nil {
 			return err
 		}
+		if i < len(rhs)-1 {
+			// each def leaves its value; the form as a whole must
+			// leave exactly one (the last), not one per target.
+			gen.AddInstruction(PopInstr(0))
+		}
 	}
 	return nil
 }
